@@ -235,7 +235,7 @@ def c01(chk):
 def c02(chk):
     chk.extract(("messageTypes", "timeCodeTypes", "controllerNumbers"))
     chk.proofs(["Midi.Props.C02"])
-    chk.translated(['TShort'])
+    chk.translated(['TShort', 'TCn'])
     msg_exhaustive(chk, C02_CELLS, mask="c02")
 
 
@@ -569,7 +569,7 @@ def c15(chk):
 def c16(chk):
     chk.extract(("controllerNumbers",))
     chk.proofs(["Midi.Props.C16"])
-    chk.translated(['TCC', 'TPN', 'TPoll'])
+    chk.translated(['TCC', 'TPN', 'TPoll', 'TCn'])
     exe = chk.cargo_build("std")
     if exe is None:
         return
